@@ -293,6 +293,12 @@ pub mod fs {
         pub fn set_len(&self, size: u64) -> io::Result<()> {
             controlled(Kind::SetLen(size), &self.path, || self.inner.set_len(size), |_| ())
         }
+
+        /// as `std::fs::File::try_clone`: the clone shares the open file description (and so the OS file offset) with
+        /// the original; the facade's own notion of the position is copied, not shared
+        pub fn try_clone(&self) -> io::Result<File> {
+            Ok(File { inner: self.inner.try_clone()?, path: self.path.clone(), position: self.position, fresh: self.fresh })
+        }
     }
 
     impl Read for File {
